@@ -189,6 +189,43 @@ def jpeg_edit_points(buf):
     return pts
 
 
+OTHER_IMAGES = [("PNG", "L"), ("PNG", "RGB"), ("PNG", "I;16"), ("PNG", "1"),
+                ("PNG", "I"), ("PNG", "P"), ("PNG", "LA"), ("PNG", "RGBA"),
+                ("TIFF", "L"), ("TIFF", "RGB"), ("TIFF", "F"), ("TIFF", "I"),
+                ("TIFF", "I;16"), ("TIFF", "1"), ("TIFF", "CMYK"),
+                ("JPEG", "CMYK"), ("JPEG", "L"), ("JPEG", "RGB"),
+                ("GIF", "P"), ("GIF", "L"), ("BMP", "L"), ("BMP", "RGB"),
+                ("BMP", "1")]
+
+
+def other_image(fmt_mode, wh, seed):
+    import PIL.Image
+    fmt, mode = fmt_mode
+    w, h = wh
+    rng = np.random.default_rng(seed)
+    if mode == "F":
+        im = PIL.Image.fromarray(rng.random((h, w), dtype=np.float32) * 255)
+    elif mode == "I":
+        im = PIL.Image.fromarray(rng.integers(0, 70000, size=(h, w),
+                                              dtype=np.int32))
+    elif mode == "I;16":
+        im = PIL.Image.fromarray(rng.integers(0, 65536, size=(h, w),
+                                              dtype=np.uint16))
+    else:
+        bands = {"L": 1, "1": 1, "P": 1, "LA": 2, "RGB": 3, "RGBA": 4,
+                 "CMYK": 4}[mode]
+        a = rng.integers(0, 256, size=(h, w, bands), dtype=np.uint8)
+        if mode in ("1", "P"):
+            im = PIL.Image.fromarray(a[..., 0]).convert(mode)
+        elif bands == 1:
+            im = PIL.Image.fromarray(a[..., 0])
+        else:
+            im = PIL.Image.fromarray(a, mode)
+    f = io.BytesIO()
+    im.save(f, format=fmt)
+    return f.getvalue()
+
+
 def smooth_chunk(C, X, Y, Z, seed):
     rng = np.random.default_rng(seed)
     z, y, x = np.meshgrid(np.arange(Z), np.arange(Y), np.arange(X),
@@ -204,6 +241,8 @@ def cases(draw, kind):
     X, Y, Z = size
     seed = draw(st.integers(0, 2 ** 32 - 1))
     origin = draw(st.sampled_from(["random", "mutated", "mutated", "mutated"]))
+    if kind == "jpeg" and draw(st.integers(0, 5)) == 0:
+        origin = "other_image"
     case = {"decoder": kind, "size": size}
     if kind == "raw":
         case["dtype"] = draw(st.sampled_from(["uint8", "uint16", "uint32",
@@ -249,7 +288,16 @@ def cases(draw, kind):
     else:
         case["dtype"] = "uint8"
         case["channels"] = C = draw(st.sampled_from([1, 3]))
-        if origin == "random":
+        if origin == "other_image":
+            # a well-formed image file that is not what the chunk should be:
+            # another container (PNG, TIFF, GIF, BMP) or another pixel type
+            # (16-bit, 1-bit, 32-bit integer / float, palette, alpha, CMYK),
+            # with the right or a wrong number of pixels
+            data = other_image(
+                draw(st.sampled_from(OTHER_IMAGES)),
+                draw(st.sampled_from([(X, Y * Z), (X * Y, Z), (X, Y * Z + 1),
+                                      (1, X * Y * Z), (X * Z, Y)])), seed)
+        elif origin == "random":
             data = draw(st.one_of(
                 st.binary(max_size=64),
                 st.binary(max_size=64).map(lambda b: b"\xff\xd8\xff\xe0" + b)))
@@ -547,6 +595,13 @@ def atheris_seeds(kind):
             body = ce.JpegChunkEncoder("uint8", C).encode(
                 smooth_chunk(C, X, Y, Z, i))
         out.append(p + body)
+    if kind == "jpeg":
+        # other image containers / pixel types of the right size
+        for i, fm in enumerate([("PNG", "L"), ("PNG", "I;16"), ("TIFF", "F"),
+                                ("PNG", "RGB"), ("GIF", "P"), ("BMP", "1")]):
+            p = bytes([i, 1 + i, 2, 3 + i % 3, i % 3, 1 + i, 1, 2 + i])
+            X, Y, Z = [1 + p[1] % 6, 1 + p[2] % 6, 1 + p[3] % 6]
+            out.append(p + other_image(fm, (X, Y * Z), i))
     return out
 
 
